@@ -15,7 +15,8 @@ RULE = ("schemas whose root carries unevaluatedProperties / unevaluatedItems nex
         "unevaluated* cases run first. Also: deep evaluation (producers 25..45 single-branch in-place applications / $ref hops below the "
         "unevaluated* keyword; the closed recursive tree on chains of 10..22 nodes; 3 %) and dynamic extension points ($dynamicRef to a "
         "$dynamicAnchor overridden by 1..2 extension resources, each embedded or Loader-supplied, the override an anyOf / oneOf with "
-        "overlapping branches; 6 %). Non-trivial: >= 1 in-place applicator; distinct = operation text")
+        "overlapping branches; an extension resource is entered at its root or (35 %) by a JSON Pointer to an interior subschema that holds its "
+        "hop — usually a bare $ref, sometimes with a title / $comment — so that the resource is on the dynamic scope through that subschema only; 6 %). Non-trivial: >= 1 in-place applicator; distinct = operation text")
 ITEMS = [Num("1"), "a", True]
 
 
@@ -282,6 +283,14 @@ def ext_case(rng, tier):
     where = rng.choice(["B", "B", "top", "E", "root"])
     # chain[0] is the outermost extension, chain[-1] is B
     names = ["ext%d.json" % i for i in range(n_ext, 0, -1)] + ["base.json"]
+    # an extension resource may be ENTERED IN THE MIDDLE: its hop to the next resource is not at its root but at $defs/hop, and whoever
+    # refers to the resource does so by pointer (ext1.json#/$defs/hop). The resource root is then never evaluated: the resource is in the
+    # dynamic scope only through that interior subschema — very often a bare {"$ref": ...} —, and its $defs/ext must still override
+    mids = [nm != "base.json" and rng.random() < 0.35 for nm in names]
+
+    def enter(i):
+        return U + names[i] + ("#/$defs/hop" if mids[i] else "")
+
     bodies = []
     for i, nm in enumerate(names):
         defs = []
@@ -292,16 +301,21 @@ def ext_case(rng, tier):
             b = Obj(list(d.kvs))
             ext = anchored(rng.choice([leaf(rng), leaf(rng), True, Obj()]), dyn=rng.random() < 0.9)
         else:
-            hop = Obj([("$ref", U + names[i + 1])])
+            hop = Obj([("$ref", enter(i + 1))])
+            if mids[i] and rng.random() < 0.3:
+                hop.set(rng.choice(["title", "description", "$comment"]), "t")
             for _ in range(rng.choice([0, 0, 1])):
                 hop = keep(rng, hop, defs)
             b = Obj(list(hop.kvs))
             ext = anchored(ext_body(defs), dyn=rng.random() < 0.9)
         if (where == "B" and nm == "base.json") or (where == "top" and i == 0) or (where == "E" and i == len(names) - 2):
             b.set(kw, uv)
+        if mids[i]:
+            defs = [("hop", b)] + defs
+            b = Obj()
         b.set("$defs", Obj([("ext", ext)] + defs))
         bodies.append(b)
-    root_is_top = where != "root" and rng.random() < 0.25
+    root_is_top = where != "root" and rng.random() < 0.25 and not mids[0]
     # the first `cut` resources of the chain live in the root document, the others are Loader documents
     lo = 1 if root_is_top else 0
     cut = lo if rng.random() < 0.5 else rng.randint(lo, len(names))
@@ -317,7 +331,7 @@ def ext_case(rng, tier):
     if root_is_top:
         root = bodies[0]
     else:
-        top = Obj([("$ref", U + names[0])])
+        top = Obj([("$ref", enter(0))])
         root = Obj(list((top if rng.random() < 0.6 else Obj([("allOf", [top])])).kvs))
         if where == "root" or rng.random() < 0.1:
             root.set(kw, uv)
@@ -332,7 +346,7 @@ def ext_case(rng, tier):
     rng.shuffle(docs)
     return {"op": "validate", "args": {"schema": root, "docs": docs, "insts": _insts(rng, kind), "loader": True},
             "meta": {"kw": 4 + sum(gs.count_keywords(b) for b in bodies), "kind7": kind, "ext": True, "cut": cut, "n_ext": n_ext,
-                     "where": where, "remote": bool(docs)}}
+                     "where": where, "remote": bool(docs), "mids": sum(mids)}}
 
 
 def gen_case(rng, tier):
